@@ -1,12 +1,25 @@
 import SshAudit.Driver.Tables
 import SshAudit.Driver.WireOps
+import SshAudit.Driver.BannerOps
+import SshAudit.Driver.VersionOps
+import SshAudit.Driver.TargetOps
+import SshAudit.Driver.PolicyOps
+import SshAudit.Driver.GexOps
+import SshAudit.Driver.ReportOps
+import SshAudit.Driver.HostKeyOps
+import SshAudit.Driver.SessionOps
+import SshAudit.Driver.MultiOps
+import SshAudit.Driver.OutputOps
 namespace SshAudit.Driver
 
 def badOp : J := .obj [("err", .str "bad-op".toList)]
 
+def firstSome (fs : List (String → List String → Option J)) (op : String) (args : List String) : Option J :=
+  fs.findSome? (fun f => f op args)
+
 def dispatch (op : String) (args : List String) : J :=
   if op = "dump-tables" then dumpTables else
-  match wireOp op args with
+  match firstSome [wireOp, bannerOp, versionOp, targetOp, policyOp, gexOp, reportOp, hostKeyOp, sessionOp, multiOp, outputOp] op args with
   | some j => j
   | none => badOp
 
